@@ -40,7 +40,7 @@ def gen_cases(tier, seed):
     for v in oracle.ALL_VERSIONS:
         lv = oracle.levels_of(v)[0]
         n = gen.max_chars(v, lv, 'numeric')
-        reps = 1 if tier == 'quick' else 3
+        reps = (1 if (isinstance(v, str) or v < 7 or v > 20) else 6) if tier == 'quick' else 12
         for _ in range(reps):
             kw = {'version': v}
             if rng.random() < 0.5 and lv:
